@@ -27,8 +27,13 @@ def masked_fact(k):
     outcome only together with the criticality of the same job (R05.1's exact shape)"""
     if k[0] not in ('forall', 'exists') or not is_wdone(k[1]):
         return False
+    def raised(a, v):
+        # `x is None` being False, or `x is not None` being True, says that the outcome x is set
+        if a[0] == 'cmp' and a[1] in ('is', '==', 'is not', '!=') and T.NONE in (a[2], a[3]):
+            return v if a[1] in ('is not', '!=') else (not v)
+        return v
     for alt in k[3]:
-        outs = [(a, v) for a, v in alt if T.mentions(a, is_outcome)]
+        outs = [(a, raised(a, v)) for a, v in alt if T.mentions(a, is_outcome)]
         crits = [(a, v) for a, v in alt if is_crit(a)]
         others = [(a, v) for a, v in alt if not T.mentions(a, is_outcome) and not is_crit(a)]
         if k[0] == 'exists':
